@@ -143,8 +143,13 @@ class Engine:
         if k == "closure":
             effs = self.summary(t["def"])
         elif k == "fndef":
+            from . import implsel
+
+            fkey, gm = implsel.fn_item(self.f, ty_idx)
             if t["def"] in self.f.bodies:
                 effs = self.instantiate(self.summary(t["def"]), self.generic_map(t["def"], t["args"]))
+            elif fkey is not None:
+                effs = self.instantiate(self.summary(fkey), gm)  # `Arc::clone` named through the trait
             else:
                 effs = self.std_effects(t["def"], t["def"], t["args"], [], None, None)[0]
         elif k == "param":
